@@ -8,6 +8,7 @@
 //!   {kind:"nume", hi, lo, exp, upper}                 DecimalNumber::new(double).with_exponent(exp, upper)
 //!   {kind:"int",  int:"<u64 digits>", form: 0|1|2|3}  HexNumber (0x / 0X) or BinaryNumber (0b / 0B)
 //!   {kind:"parse", text:"<spelling>"}                 `return <spelling>` through darklua_core::Parser
+//!   {kind:"src", b:[bytes of a string literal]}       `return <literal>` through darklua_core::Parser; records the value read (val)
 //! Every literal X is written by DenseLuaGenerator (spans 80 and 8), ReadableLuaGenerator (80 and 8) and
 //! TokenBasedLuaGenerator in the neighbour contexts
 //!   ret `return X` | call `return f(X)` | op `return X .. X` (strings) / `return X + X` (numbers) | index `return t[X]`
@@ -79,6 +80,34 @@ pub fn main(args: &[String]) -> i32 {
         let kind = c["kind"].as_str().expect("kind").to_string();
         let mut o = json!({"id": c["id"], "kind": kind, "fam": c.get("fam").cloned().unwrap_or(json!("")), "b": "", "hi": 0, "lo": 0, "text": "",
                            "status": "ok", "node": "", "outs": []});
+        if kind == "src" {
+            // a string literal as written in a source file: what value does darklua's reader give it?
+            let b = crate::gen::bytes_of(&c["b"]);
+            o["b"] = latin1(&b);
+            o["val"] = json!("");
+            match String::from_utf8(b.clone()) {
+                Err(_) => o["status"] = json!("notutf8"),
+                Ok(text) => {
+                    let code = format!("return {}", text);
+                    match guarded(|| darklua_core::Parser::default().parse(&code)) {
+                        Err(p) => o["status"] = json!(format!("panic:{}", p.chars().take(150).collect::<String>())),
+                        Ok(Err(e)) => o["status"] = json!(format!("rejected:{}", e.to_string().chars().take(150).collect::<String>())),
+                        Ok(Ok(block)) => {
+                            let e = match block.get_last_statement() {
+                                Some(LastStatement::Return(r)) if r.len() == 1 => r.iter_expressions().next().cloned(),
+                                _ => None,
+                            };
+                            match e {
+                                Some(Expression::String(st)) => o["val"] = latin1(st.get_value()),
+                                _ => o["status"] = json!("notstring"),
+                            }
+                        }
+                    }
+                }
+            }
+            out.emit(&o);
+            continue;
+        }
         if kind == "parse" {
             let text = c["text"].as_str().expect("text");
             o["text"] = json!(text);
